@@ -338,4 +338,10 @@ def run(tier, seed, jobs):
     res = chx.run_cells(cs, jobs)
     ncls = len(calendar_classes(-1, 3, ylo=2, yhi=9990))
     return report.aggregate("C01", res, assumptions=ASSUMPTIONS, bounds=dict(years="2..9990 via %d calendar classes (window -1..+3)" % ncls, cells=len(cs)),
-                            outside=OUTSIDE)
+                            outside=OUTSIDE, level="other",
+                            explanation="Mixed: the constructor normalisation cells (h_construct*, h_mod_distance) are decided "
+                            "symbolically (CrossHair paths + z3 over symbolic rule parameters); the end-to-end occurrence-list "
+                            "cells cannot be (every query over a symbolic start year came back unknown), so they enumerate the "
+                            "%d calendar classes of (leap pattern, Jan-1 weekday) windows that exist in years 2..9990, the start "
+                            "month/day/weekday choice is solver-split per class, and each resulting concrete rule is run on the "
+                            "real rrule and compared with the RFC 5545 brute-force reference" % ncls)
